@@ -126,6 +126,19 @@ def run_miri(name, tier):
     return out
 
 
+def run_ffi_native(name, tier):
+    import miri_run as MR
+    r = MR.run(timeout=900, tier=tier, native=True)
+    out = {'status': r['status'], 'violations': [], 'obligations': [], 'samples': [], 'trusted': [], 'reason': r.get('detail', ''),
+           'bound': 'fixed call sequences (%s tier), native allocator' % tier, 'cases': r.get('tests', 0), 'wall_s': r.get('wall_s', 0), 'name': 'ffi_native',
+           'domain': 'the FFI life cycles of miri/verif_ffi_miri.rs as an ordinary test binary: every C string compared with the Rust API value after every event, with the system allocator (freed suggestion addresses are reused at once)'}
+    if r['status'] == 'fail':
+        out['violations'].append({'props': ['C19'], 'unit': 'ffi_native', 'function': 'verif_ffi_miri', 'kind': 'FFI life cycle failed natively', 'clause': 'C19 every returned string equals the value the Rust API reports; pointers are unaffected by later calls',
+                                  'rendered': r.get('raw', '')[-3500:], 'input': {'test': 'miri/verif_ffi_miri.rs (native)', 'tier': tier, 'error': r.get('detail', '')[:600]}, 'exit_point': None})
+    out['samples'].append({'native_ffi_test': 'ffi life cycles', 'verdict': r['status'], 'wall_s': round(r.get('wall_s', 0))})
+    return out
+
+
 def run_static(name):
     import static_scans as SS
     return SS.run(name)
